@@ -1481,6 +1481,15 @@ func matchType(pkg *Package, arg *internal.Elem, param types.Type, at any) error
 			}
 		}
 	}
+	if tsig, ok := arg.Type.(*types.Signature); ok && tsig.TypeParams().Len() > 0 {
+		// a generic function that could not be instantiated from the parameter type is not a value
+		// (passing it where an interface is expected: Two[any](x, Id))
+		src, pos, end := pkg.cb.loadExpr(arg.Src)
+		if src == "" {
+			src = exprString(arg.Val)
+		}
+		return pkg.cb.newCodeError(pos, end, fmt.Sprintf("cannot use generic function %v without instantiation", src))
+	}
 	if AssignableConv(pkg, arg.Type, param, arg) {
 		return nil
 	}
